@@ -20,7 +20,7 @@ RULE = ('page trees over <= 10 objects: every ordered tree shape with <= 5 tree 
         'through 0..3 references; kids shared between parents or listed twice; kids pointing back to an ancestor or '
         'the root; self-referential and longer looping reference chains in every reference-following position '
         '(/Kids, /Contents, a /Contents array element, /Resources, /Font, a font entry, /Encoding, /FontDescriptor); '
-        'a malformed stream (deleted keys, wrong types, undefined ids, retargeted references). '
+        '/Encoding names over the UTF-8 boundary cases; a malformed stream (deleted keys, wrong types, undefined ids, retargeted references). '
         'non-trivial = distinct case whose DOM has at least one page with a font, or that is rejected with an error')
 TRUSTED = ['model of pdf_page_dom.rs / get_resolved_dict in coq/Model/Dom.v (hand transcription, validated by this '
            'correspondence run in debug and release builds)',
@@ -176,7 +176,7 @@ def parse_ctx(s):
     for part in s.split(';'):
         i, o = part.split('=', 1)
         n, g = i.split('.')
-        ctx[(int(n), int(g))] = Rd(o).obj()
+        ctx.setdefault((int(n), int(g)), Rd(o).obj())    # register_obj keeps the first definition of an id
     return ctx
 
 
@@ -956,9 +956,28 @@ def malformed_cases(tier, rng):
     return out
 
 
+ENC_NAMES = [b'WinAnsiEncoding', b'MacRomanEncoding', b'MacExpertEncoding', b'Identity-H', b'', b'\xc3\xa9', b'\xe2\x82\xac',
+             b'\xf0\x9f\x98\x80', b'\xef\xbf\xbf', b'\xf4\x8f\xbf\xbf', b'\xed\x9f\xbf', b'\xee\x80\x80', b'\xc2\x80', b'\xdf\xbf',
+             b'\xe0\xa0\x80', b'\xf0\x90\x80\x80', b'a\xc3\xa9b',
+             # not UTF-8: overlong forms, surrogates, beyond U+10FFFF, stray and missing continuation bytes
+             b'\xc0\x80', b'\xc1\xbf', b'\xe0\x9f\xbf', b'\xed\xa0\x80', b'\xed\xbf\xbf', b'\xf0\x8f\xbf\xbf', b'\xf4\x90\x80\x80',
+             b'\xf5\x80\x80\x80', b'\xff', b'\x80', b'\xbf', b'\xc2', b'\xe2\x82', b'\xf0\x9f\x98', b'\xc2\x41', b'\xe2\x41\x80',
+             b'\xe2\x82\x41', b'ab\xc3', b'\xf8\x88\x80\x80\x80']
+
+
+def encoding_cases(tier, rng):
+    """/Encoding names: the library decides by std::str::from_utf8 whether the name is an (unknown) encoding or an error"""
+    out = []
+    for nm in ENC_NAMES:
+        for hops in (0, 1):
+            doc, _ = build_tree(((),), rng, {0}, {'enc': lambda d, r: d.via(('name', nm), hops)})
+            out.append(doc.line(1))
+    return out
+
+
 def cases(tier, rng):
     return (tree_cases(tier, rng) + graph_cases(tier, rng) + diamond_cases(tier, rng) + loop_cases(tier, rng)
-            + malformed_cases(tier, rng))
+            + encoding_cases(tier, rng) + malformed_cases(tier, rng))
 
 
 LEVEL_TEXT = ('Coq theorems about the model of to_page_dom (all object contexts, all roots): construction terminates within '
